@@ -214,6 +214,7 @@ pub fn check(c: &Case) -> CheckResult {
 }
 
 fn small_xf() -> BoxedStrategy<Xf> {
+    let ent = || prop_oneof![2 => Just(0.0f32), 3 => Just(1.0f32), 1 => Just(-1.0f32), 2 => (-2.0f32..2.0)];
     prop_oneof![
         3 => Just(IDENT),
         3 => (-12i32..=12, -12i32..=12).prop_map(|(x, y)| [1., 0., 0., 1., x as f32, y as f32]),
@@ -223,6 +224,10 @@ fn small_xf() -> BoxedStrategy<Xf> {
         2 => (0.2f32..3.0, 0.2f32..3.0, -6.0f32..6.0, -6.0f32..6.0).prop_map(|(a, b, x, y)| [a, 0., 0., b, x, y]),
         2 => (0.0f32..360.0, 0.3f32..2.5, -6.0f32..6.0, -6.0f32..6.0).prop_map(|(ang, s, x, y)| { let r = (ang as f64).to_radians(); let (c, sn) = (r.cos() as f32 * s, r.sin() as f32 * s); [c, sn, -sn, c, x, y] }),
         1 => (prop::sample::select(vec![3.0f32, 5.0, 2.0, -1.0]), -4i32..=4, -4i32..=4).prop_map(|(k, x, y)| [k, 0., 0., k, x as f32, y as f32]),
+        // lattice matrices: every linear entry 0, 1, -1 or arbitrary, whole-number translation (unit-diagonal
+        // shears, axis swaps, ...: everything an "is this an integer translation?" shortcut could mistake)
+        2 => (ent(), ent(), ent(), ent(), -6i32..=6, -6i32..=6).prop_map(|(a, b, c, d, x, y)| [a, b, c, d, x as f32, y as f32]).prop_filter("conditioned", |x| xf_det(x).abs() >= 0.05),
+        1 => (any::<bool>(), prop_oneof![Just(1.0f32), Just(2.0f32), Just(-1.0f32), -2.0f32..2.0], -6i32..=6, -6i32..=6).prop_map(|(up, k, x, y)| if up { [1., k, 0., 1., x as f32, y as f32] } else { [1., 0., k, 1., x as f32, y as f32] }),
     ]
     .boxed()
 }
@@ -345,7 +350,7 @@ fn draw_strategy() -> BoxedStrategy<DrawCase> {
 pub fn property(_ctx: &Ctx) -> Property {
     Property {
         id: "C13",
-        rule: "part sample: images 1..8 x 1..8 of random premultiplied texels (plus position-coded images), Pad/Repeat, Nearest/Bilinear, alpha in {1,0.5,uniform}, CTM and source transform each from {identity, integer translation (negative, beyond the image), fractional translation, half/quarter-pixel translation, scale 0.2-3, rotation x scale, integer scales 2/3/5/-1}, surfaces 2..16 px, rendered with a full-surface Src fill. Oracle: f64 texel addressing M(pixel centre) (inverse CTM then source transform): nearest = texel(floor) with clamp / euclidean wrap, either neighbour accepted within the 16.16 epsilon (no allowance when both matrices are translations by multiples of 1/256, where every step is exact; half- and quarter-pixel translations are generated so that samples fall exactly on texel boundaries); bilinear within [min-2,max+2] of the four texels around (u-0.5,v-0.5), the exact texel at exactly representable texel centres; integer translations exact for both filters; alpha scaling within 1/255 (exact at alpha 1). part draw: draw_image_at at integer (exact texel placement) and fractional positions and draw_image_with_size_at with random sizes; pixels wholly outside the rectangle untouched, inside by the bilinear rule. Non-trivial: image >= 2x2 with >= 2 distinct texels and (some sample outside the image or a non-integer-translation matrix); distinct by hash of the case.",
+        rule: "part sample: images 1..8 x 1..8 of random premultiplied texels (plus position-coded images), Pad/Repeat, Nearest/Bilinear, alpha in {1,0.5,uniform}, CTM and source transform each from {identity, integer translation (negative, beyond the image), fractional translation, half/quarter-pixel translation, scale 0.2-3, rotation x scale, integer scales 2/3/5/-1, lattice matrices (entries 0/1/-1/arbitrary) and unit-diagonal shears with whole-number translations}, surfaces 2..16 px, rendered with a full-surface Src fill. Oracle: f64 texel addressing M(pixel centre) (inverse CTM then source transform): nearest = texel(floor) with clamp / euclidean wrap, either neighbour accepted within the 16.16 epsilon (no allowance when both matrices are translations by multiples of 1/256, where every step is exact; half- and quarter-pixel translations are generated so that samples fall exactly on texel boundaries); bilinear within [min-2,max+2] of the four texels around (u-0.5,v-0.5), the exact texel at exactly representable texel centres; integer translations exact for both filters; alpha scaling within 1/255 (exact at alpha 1). part draw: draw_image_at at integer (exact texel placement) and fractional positions and draw_image_with_size_at with random sizes; pixels wholly outside the rectangle untouched, inside by the bilinear rule. Non-trivial: image >= 2x2 with >= 2 distinct texels and (some sample outside the image or a non-integer-translation matrix); distinct by hash of the case.",
         assumptions: vec!["sampling epsilon (px+py+2)/65536 + 1e-4 (+4e-6 x coordinate scale) for the 16.16 matrix and the f32 inverse", "pixels straddling the rectangle edge of draw_image_* are not judged"],
         parts: vec![part("sample", 100_000, 2_000_000, strategy, check), part("draw", 40_000, 600_000, draw_strategy, check_draw)],
         min_class_fraction: vec![
